@@ -285,6 +285,9 @@ def m_split_at(ctx):
     S.add_fact(d)
     head = sub_seq(ctx, v, S.term(n), "head")
     tail = sub_seq(ctx, v, S.term(ln).sub(S.term(n)), "tail")
+    tn = S.term(n)
+    if not tn.t and isinstance(tail, Seq):  # constant split point: the rest starts that many bytes into a tagged chunk
+        tail = Seq(tail.kind, tail.len, tail.elem, tail.efacts, tail.data, bump_skip(tail.prov, tn.c))
     head = with_tags(head, notify_read(ctx, v, S.term(n), None, head, tail))
     return Struct("tuple", [derived(ctx, head, "h"), derived(ctx, tail, "t")])
 
@@ -464,6 +467,8 @@ def range_index(ctx, v, rng_val, what):
             return None
         S.add_fact(st.sub(ln))
         out = sub_seq(ctx, v, ln.sub(st), "rf")
+        if not st.t and isinstance(out, Seq):
+            out = Seq(out.kind, out.len, out.elem, out.efacts, out.data, bump_skip(out.prov, st.c))
         notify_rest(ctx, v, out)
         return out
     if p == "core::ops::range::Range":
